@@ -242,7 +242,7 @@ pub fn decode_whistory(data: &[u8]) -> WHistory {
         });
     }
     let seed_byte = c.byte();
-    let content_seed = (seed_byte & 0x7f) as u64;
+    let content_seed = (seed_byte & 0x3f) as u64;
     let mut ops = vec![];
     while c.i + 4 <= data.len() && ops.len() < 60 {
         let k = c.byte();
@@ -294,6 +294,7 @@ pub fn decode_whistory(data: &[u8]) -> WHistory {
         sink: SinkScript { steps, tail_accept },
         content_seed,
         unwind_drop: seed_byte & 0x80 != 0,
+        boxed: seed_byte & 0x40 != 0,
     }
 }
 
